@@ -1,7 +1,7 @@
 /-
   `main` / `exec_search` (main.rs) on a file-system snapshot: argv → outcome.
 -/
-import Fsel.Model.Follow
+import Fsel.Model.Ignore
 
 namespace Fsel
 
@@ -36,18 +36,34 @@ def followColumnsOK (q : Query) : Bool :=
   (q.fields ++ q.grouping ++ q.ordering ++ (match q.expr with | some e => [e] | none => [])).all
     fun e => e.requiredFields.all ok
 
-def searchRoots (p : Plan) (fs : FSnap) : List Root → WSt → Except Abort WSt
+def searchRoots (p : Plan) (fs : FSnap) (multi : Bool) : List Root → WSt → Except Abort WSt
   | [], st => .ok st
   | r :: rs, st =>
     if r.options.regexp then .error (.unsupported "regexp root")
-    else if r.options.gitignore.getD (p.cfg.gitignore.getD false) || r.options.hgignore.getD (p.cfg.hgignore.getD false)
-            || r.options.dockerignore.getD (p.cfg.dockerignore.getD false) then .error (.unsupported "ignore files (see Ignore.lean)")
     else
       match resolveRoot fs r.path with
       | .error w => .error (.unsupported w)
       | .ok res =>
+        let useGit := ignoreApplies r.options.gitignore p.cfg.gitignore
+        let useHg := ignoreApplies r.options.hgignore p.cfg.hgignore
+        let useDocker := ignoreApplies r.options.dockerignore p.cfg.dockerignore
         let run : Except Abort WSt :=
-          if r.options.symlinks then
+          if useGit || useHg || useDocker then
+            if r.options.symlinks then .error (.unsupported "ignore files together with symlinks")
+            else if multi then .error (.unsupported "ignore files with several roots (filters accumulate)")
+            else
+              match res with
+              | .dir e l kids canon =>
+                let cx : FCtx := ⟨fs.top, fs.rootCanon⟩
+                let hg? : IgnParse (Option (List Re)) := if useHg then (match findHg cx canon with | .ok v => .ok (some v) | .unsupported w => .unsupported w) else .ok none
+                let dk? : IgnParse (Option (List (Re × Bool))) := if useDocker then (match findDocker cx canon with | .ok v => .ok (some v) | .unsupported w => .unsupported w) else .ok none
+                match hg?, dk? with
+                | .unsupported w, _ | _, .unsupported w => .error (.unsupported w)
+                | .ok hg, .ok dk =>
+                  let ig : IgnoreSet := { git := useGit, hg := hg, docker := dk }
+                  searchRoot p r (.dir e l (pruneL ig r.path canon kids) canon) st
+              | other => searchRoot p r other st
+          else if r.options.symlinks then
             if !followColumnsOK p.q then .error (.unsupported "symlinks: columns read through the link (metadata follows links)")
             else
               let st1 : WSt := match res with
@@ -57,7 +73,7 @@ def searchRoots (p : Plan) (fs : FSnap) : List Root → WSt → Except Abort WSt
           else searchRoot p r res st
         match run with
         | .error a => .error a
-        | .ok st' => searchRoots p fs rs st'
+        | .ok st' => searchRoots p fs multi rs st'
 
 /-- `exec_search` -/
 def execSearch (fs : FSnap) (cfg : Config) (args : List Str) : Outcome :=
@@ -67,7 +83,7 @@ def execSearch (fs : FSnap) (cfg : Config) (args : List Str) : Outcome :=
   | .ok q =>
     let p := Plan.of q cfg
     let st0 : WSt := { res := { outRev := [fmtHeader q.format] }, walk := { fresh := fs.top.inodes.eraseDups } }
-    match searchRoots p fs q.roots st0 with
+    match searchRoots p fs (q.roots.length > 1) q.roots st0 with
     | .error (.exit2 _ out) => .exit 2 out [] false []
     | .error (.unsupported w) => .unsupported w
     | .ok st =>
